@@ -543,8 +543,10 @@ class Aggregate(list):
     def __getattr__(self, attr: str):
         """Proxy access to attributes of SubAggregates"""
         for subaggregate in self.subaggregates:
-            subagg = getattr(self, subaggregate)
             try:
+                # N.B. ListAggregates are never stored as attributes (KeyError),
+                # nor is anything before __init__() has run (copy / pickle).
+                subagg = getattr(self, subaggregate)
                 return getattr(subagg, attr)
             except (AttributeError, KeyError):
                 continue
